@@ -168,6 +168,27 @@ func (x *Ex) genFuncsMore(body *LeanFile) {
 		{"internal/domutil", "", "MakeAllSrcAttributesAbsolute"},
 		{"internal/domutil", "", "MakeAllSrcSetAbsolute"},
 	})
+	// the rendering of the other element kinds: what Model/MediaRender.lean models
+	x.bodyGroup(body, "mediaRenderBodies", []string{"C04", "C05", "C06", "C09", "C19"}, [][3]string{
+		{"internal/webdoc", "Image", "GenerateOutput"},
+		{"internal/webdoc", "Image", "GetURLs"},
+		{"internal/webdoc", "Image", "getProcessedNode"},
+		{"internal/webdoc", "Image", "cloneAndProcessNode"},
+		{"internal/webdoc", "Figure", "GenerateOutput"},
+		{"internal/webdoc", "Video", "GenerateOutput"},
+		{"internal/webdoc", "Embed", "GenerateOutput"},
+		{"internal/webdoc", "Table", "GenerateOutput"},
+		{"internal/webdoc", "Table", "GetImageURLs"},
+		{"internal/webdoc", "Document", "GetImageURLs"},
+		{"internal/domutil", "", "CloneAndProcessTree"},
+		{"internal/domutil", "", "CloneAndProcessList"},
+		{"internal/domutil", "", "GetOutputNodes"},
+		{"internal/domutil", "", "GetAllSrcSetURLs"},
+		{"internal/domutil", "", "GetSrcSetURLs"},
+		{"internal/domutil", "", "makeSrcSetAbsolute"},
+		{"internal/domutil", "", "GetFirstElementByTagNameInc"},
+		{"internal/domutil", "", "RemoveDuplicateAttributes"},
+	})
 	// the prefix test whose success licenses `linkHref[lenPrefix:]` in PrevNextFinder.FindOutlink
 	x.bodyStmts(body, "internal/stringutil", "", "HasPrefixIgnoreCase", "hasPrefixIgnoreCaseBody", "C01", "C16")
 }
